@@ -98,7 +98,16 @@ class DagWalker(Walker):
     def iter_walk(self, formula: FNode, **kwargs) -> Any:
         """Performs an iterative walk of the DAG"""
         self.stack.append((False, formula))
-        self._process_stack(**kwargs)
+        try:
+            self._process_stack(**kwargs)
+        except BaseException:
+            # A callback failed: the unfinished work (and the partial
+            # results of a one-time cache) must not leak into the
+            # next walk
+            del self.stack[:]
+            if self.invalidate_memoization:
+                self.memoization.clear()
+            raise
         res_key = self._get_key(formula, **kwargs)
         return self.memoization[res_key]
 
